@@ -77,7 +77,8 @@ void run_case(Ctx &c) {
         RArrayOpts o; o.units = use_units; o.odd_ticks = true; o.max_extent = R == 3 ? 6 : 9;
         c.op("make-array rank" + str(R));
         RArray A = make_rarray(c, b, "a" + str(ai), R, o);
-        RArray FA = make_rarray(c, b, "feat" + str(ai), R, o);   // feature array with its own axes
+        bool fa_like = r.chance(0.5);
+        RArray FA = fa_like ? make_rarray_like(c, b, "feat" + str(ai), A) : make_rarray(c, b, "feat" + str(ai), R, o);   // feature array: same descriptors as the reference, or its own
         c.fp("R" + str(R) + (use_units ? "u" : ""));
         for (auto &ax : A.ax) c.fp(ax.kname());
         for (int ti = 0; ti < ntags; ti++) {
@@ -115,9 +116,9 @@ void run_case(Ctx &c) {
                 Got g = retrieve([&] { return r.chance(0.5) ? util::featureData(tg, 0, m) : util::featureData(tg, ft, m); });
                 if (lt == LinkType::Tagged) {
                     // the tag's units refer to A's axes; on the feature array only unit-less tags are judged
-                    if (t.units.empty() || !use_units) {
-                        TagSpec tf = t; tf.factor.assign(t.pos.size(), 1.0);
-                        bool units_clash = false; for (size_t d = 0; d < FA.rank() && d < t.pos.size(); d++) if (!t.units.empty() && t.units[d] != "none") units_clash = true;
+                    if (t.units.empty() || !use_units || fa_like) {
+                        TagSpec tf = t; if (!fa_like) tf.factor.assign(t.pos.size(), 1.0);
+                        bool units_clash = false; if (!fa_like) for (size_t d = 0; d < FA.rank() && d < t.pos.size(); d++) if (!t.units.empty() && t.units[d] != "none") units_clash = true;
                         if (!units_clash) {
                             Box want = tag_box(FA, tf.pos, tf.ext, tf.has_ext, tf.factor, m, 0); std::string d = compare_box(FA, want, g);
                             if (t.pos.size() == FA.rank()) c.check(d.empty(), std::string("C05/feature/tagged/") + rm_name(m), [&] { return d + " | feature array " + FA.describe() + spec_show(t); });
